@@ -316,7 +316,8 @@ GBad ==
 
 -----------------------------------------------------------------------------
 Weighted ==
-  CASE Focus = "reorg"  -> GCall \/ GCall \/ GDeploy \/ GFinalise \/ GFinalise \/ GMine \/ GCommit \/ GReorg \/ GReorg \/ GTransact \/ GLedger
+  CASE Focus = "reorg"  -> GCall \/ GCall \/ GDeploy \/ GFinalise \/ GFinalise \/ GMine \/ GMine \/ GCommit \/ GReorg \/ GReorg \/ GReorg \/ GTransact \/ GLedger
+                             \/ GRestart \/ GClear
     [] Focus = "proto"  -> GCall \/ GDeploy \/ GFinalise \/ GBad \/ GBad \/ GTransact \/ GLedger \/ GMine
     [] Focus = "pool"   -> GTransact \/ GTransact \/ GTransact \/ GFinalise \/ GFinalise \/ GMine \/ GCall \/ GReorg \/ GClear
     [] Focus = "ledger" -> GLedger \/ GLedger \/ GUserLedger \/ GUserLedger \/ GFinalise \/ GReorg \/ GCommit \/ GCall
